@@ -17,10 +17,10 @@ CLAIMED["C01"] = ("Unbounded proof of the per-step legs of 'reads reflect the ex
   "tombstones kept unless nothing lies below; isEmpty/Stats speak about the whole tree of child stacks." + BOUNDED,
   "The whole-history statement is the composition of these steps and is NOT machine-checked as one theorem. Trusted: mergeInto's content (only its call-site preconditions and the shape "
   "of the result are proved; the bounded stand-in exercises it), sort.Sort. snapshot()'s lock-taking path (merger) and the child-stack part of appendChildStacks are assumed (see "
-  "callee_contracts_relied_on). DeferredSort batches are excluded by precondition. Fixed findings S5, S26.", "13/C01")
+  "callee_contracts_relied_on). ensureSorted is verified against a trusted ticket contract of RequestSort (every requested level has completed sorting, also one another goroutine is sorting); its callers treat it as a no-op because their contracts admit only stacks without pending sort tickets (DeferredSort batches excluded by ExecuteBatch's precondition). Fixed findings S5, S26.", "13/C01")
 CLAIMED["C02"] = ("Unbounded proof of the mechanisms that keep a snapshot frozen: buildStackDirtyTop (every ExecuteBatch) builds a FRESH stack with a fresh segment array and carries the "
   "nested child stacks over; ExecuteBatch drops the cached snapshot in the same critical section; collection.snapshot copies the section contents into a fresh stack and changes no section; "
-  "ChildCollectionSnapshot and Store.snapshot add exactly one count; Footer.DecRef releases locations and child footers only at count zero; Footer.Get returns a private copy unless NoCopyValue.",
+  "ChildCollectionSnapshot and Store.snapshot add exactly one count; Footer.DecRef releases locations and child footers only at count zero; Footer.Get returns a private copy unless NoCopyValue; path by path (return-site clauses) Store.persist hands out only counted footers, gives the round's footer back when writing it fails, releases it only after its segments were loaded and ends with exactly two counts; SegmentLocs.AddRef (now verified) and revertToSnapshot add a count on every mapping they share; mergerNotifyPersister counts the lower level it re-points the base section at.",
   "iterator.SeekTo is proved not to release the iterator's closer. Not under contract: the mmap layer below mmapRef (OS keeps an unlinked mapped file readable: assumed). Whole-history "
   "statement not machine-checked. Fixed S12, S17, S24 (witness only), S29.", "13/C02")
 CLAIMED["C03"] = ("Unbounded proof at lock granularity (guarded fields are havocked at every acquire; only the lock invariant is known): ExecuteBatch publishes a batch in exactly one critical "
@@ -28,7 +28,7 @@ CLAIMED["C03"] = ("Unbounded proof at lock granularity (guarded fields are havoc
   "nothing on its early exits; Snapshot() reads all sections inside one critical section and changes none; the merger callback swaps mid/top in one critical section; every access to a guarded "
   "field is proved to hold collection.m.",
   "Known finding S7 (Collection.Get does not see a Del/Merge of a newer section; reported under C03 and C10, pinned by ensures#chain). Prefix monotonicity of successive snapshots is a "
-  "consequence argued in DESIGN.md, not a machine-checked theorem. DeferredSort (seed C03/3) excluded by precondition.", "13/C03")
+  "consequence argued in DESIGN.md, not a machine-checked theorem. DeferredSort: ensureSorted's waiting is proved against the trusted ticket contract of RequestSort (seeds C03/3, C01/r4-1, C09/r4-2); readyDeferredSort/doSort of nested child batches stay outside (seeds C03/r2-2, C09/r4-3).", "13/C03")
 CLAIMED["C04"] = ("Unbounded proof of the layout and load legs: page arithmetic (exact), buildNewFooter carries every old location plus one per persisted segment and every live child footer, "
   "compaction (mergeSegStacks/spliceFooter/writeSegments) keeps the incarnations and children, loadBasicSegment views exactly the byte ranges a location names (non-nil buf), isEmpty says "
   "'nothing to persist' only for an empty tree, the merger never overwrites a base that is being persisted, restoreCollection keeps the incarnation counter above every restored child.",
@@ -37,20 +37,20 @@ CLAIMED["C04"] = ("Unbounded proof of the layout and load legs: page arithmetic 
 CLAIMED["C05"] = ("Unbounded proof of the parts of crash safety a contract on moss can carry: (1) ScanFooter, for EVERY file content (reads return arbitrary bytes), never panics or allocates a "
   "negative size, ends with a footer or ErrNoValidFooter unless a file operation failed, and the footer it returns records the position it was found at; (2) persistFooter never writes a "
   "footer while earlier writes are unsynced and succeeds only with everything synced (unless NoSync); (3) append-only: footers and compaction sections are placed at or beyond the known "
-  "file size. All blocks of ScanFooter are proved reachable (vacuity covers).",
+  "file size; (4) a compaction configured with CompactionSync/CompactionSyncAfterBytes succeeds only with everything synced; a failing writeSegments schedules no file for removal. All blocks of ScanFooter are proved reachable (vacuity covers).",
   "The crash model (which images a crash can leave, Sync durability, directory ordering) is assumed; 'LAST complete footer' and openStore's fallback to an older file (S3, unrepaired) are not "
   "under contract. encoding/json sets exported fields only (trusted). Fixed S1, S2.", "13/C05")
 CLAIMED["C06"] = ("Unbounded proof of error propagation and non-publication for every sequence of file-operation results (each File call returns a nondeterministic result; a short write is a "
   "failure): persistFooter/persistFooterUnsynced report any failed or short write or sync; the writer goroutine of bufferedSectionWriter hands a failure back; Store.persist, compact and "
   "compactMaybe leave s.footer untouched whenever they return an error; a failed round never schedules a pre-existing (live) file for removal and a failed full compaction schedules the file "
-  "it started.",
+  "it started; persistSegments and writeSegments propagate a failure from any depth of the tree of child collections; a footer whose segment writes or loads failed is not released (it owns no counts), one whose write failed is.",
   "persistBasicSegment, persistHeader and Stop()/Flush() are not under contract (channel protocol abstracted; witness only); the path argument of os.Remove is not modelled (seed C06/3). "
   "Ghost 'doomed file' is set by an assumed postcondition of removeFileOnClose. Fixed S6.", "13/C06")
 CLAIMED["C07"] = ("Unbounded proof of the structural half of compaction: mergeSegStacks yields footer.ss.a[splice:] ++ higher.a with NO lower level, and for every child the child footer's segments "
   "of the SAME incarnation followed by the incoming ones (children compacted fully); spliceFooter restores exactly the retained prefix; the footer written by writeSegments has one segment, "
-  "the incarnation and the children of its stack; merge()/writeSegments call mergeInto with tombstones kept unless nothing lies below; failed rounds clean up the file they started.",
-  "Content equality of the merged segment is mergeInto's trusted contract (bounded stand-in under C08/C09); that a SUCCESSFUL full compaction schedules the superseded file (seed C07/2) "
-  "and absence of tombstones after full compaction (optimizeTail copies them) are not decided. Fixed S9, S10, S11, S28 (compaction without incoming data dropped the children).", "13/C07")
+  "the incarnation and the children of its stack; merge()/writeSegments call mergeInto with tombstones kept unless nothing lies below; failed rounds clean up the file they started and give back the count they took on the output file; a full compaction whose before-size was measured has scheduled a file for removal; child collections are compacted with the parent's tombstone setting; mergeInto's raw tail copy is only used when deletions are kept.",
+  "Content equality of the merged segment is mergeInto's trusted contract (bounded stand-in under C08/C09); WHICH file a successful full compaction schedules is not decided (only that one is), nor the reference balance of its success path. "
+  " Fixed S9, S10, S11, S28 (compaction without incoming data dropped the children).", "13/C07")
 CLAIMED["C08"] = ("Unbounded proof for point reads and Current: get/getMerged fold the operands from the newest level down, each applied exactly once over the value of the levels strictly below "
   "(or base, or lower level); iteratorSingle.Current and iterator.Current/CurrentEx resolve a Merge entry by the same read; merge() passes each child the base of the SAME incarnation and "
   "keeps tombstones unless nothing lies below; the compaction stack has no lower level (operands are not folded twice)." + BOUNDED,
@@ -58,7 +58,7 @@ CLAIMED["C08"] = ("Unbounded proof for point reads and Current: get/getMerged fo
   "level). Reopen not covered.", "13/C08")
 CLAIMED["C09"] = ("Unbounded proof for the single-segment path: findStartKeyInclusivePos is the lower bound for any index window; cursors; iteratorSingle.Next/CurrentEx/Current/SeekTo incl. the "
   "naiveSeekTo loop (order, range, deletions skipped unless asked for, termination); StartIterator degrades to the single-segment iterator only when exactly one source had entries." + BOUNDED,
-  "The general heap iterator (Next/SeekTo/startIterator) is covered ONLY by the bounded stand-in - not a proof. Fixed S23 (found by the verifier), S26 (found by the bounded stand-in).", "13/C09")
+  "The general heap iterator (Next/SeekTo/startIterator) is covered ONLY by the bounded stand-in - not a proof. The key-index lookup (C14) and ensureSorted (deferred sort waits for every requested level) are part of this check. Fixed S23 (found by the verifier), S26 (found by the bounded stand-in).", "13/C09")
 CLAIMED["C10"] = ("Unbounded proof that every point-read path is the same function of the state: segment.Get, segmentStack.get/getMerged/Get equal the reference read; Collection.Get is proved "
   "against the sections its own critical section saw; Footer.Get copies unless NoCopyValue." + BOUNDED,
   "Known finding S7/S22 (collection.get :: ensures#agree, witness test): Collection.Get disagrees with Snapshot.Get across sections; ensures#chain pins today's behaviour. Iteration agreement "
@@ -67,7 +67,7 @@ CLAIMED["C11"] = ("Unbounded proof, level by level over the child trees (recursi
   "new child a strictly larger incarnation number; buildNewFooter, mergeSegStacks, spliceFooter, writeSegments, merge and revertToSnapshot preserve the set of children, keep persisted "
   "segments only for the same incarnation and drop deleted children; child maps never hold nil; ChildCollectionSnapshot counts.",
   "Each activation proves its level and the level below; the tree-wide statement is by induction over activations (not machine-checked); collection/footer trees are assumed trees (ghost "
-  "depth) and a call on a child is assumed to touch only its subtree. appendChildLLSnapshot (S15) not under contract. Known finding S16b; fixed S9, S10, S11, S28.", "13/C11")
+  "depth) and a call on a child is assumed to touch only its subtree. appendChildStacks leaves the child stack of a dropped or re-created child alone (incarnation filter proved); emptyStackLike is proved one level deep only (seed C11/r4-2 is caught through its loop contract, not a tree predicate). appendChildLLSnapshot (S15) not under contract. Known finding S16b; fixed S9, S10, S11, S28.", "13/C11")
 CLAIMED["C12"] = ("Unbounded proof of the history chain: buildNewFooter links every new footer to the footer that was current; ScanFooter records the position a footer was found at; "
   "snapshotPrevious returns what the scan finds at exactly the linked offset of the same file; SnapshotRevert installs a footer with exactly the locations and ALL children of the target, "
   "durably appended, linked to the footer that was current.",
@@ -82,8 +82,8 @@ CLAIMED["C14"] = ("Unbounded proof, for every segment, key and index density: th
   "uninterpreted with lemmas.", "13/C14")
 CLAIMED["C15"] = ("Unbounded proof of the reference accounting primitives: FileRef/mmapRef/Footer/segmentStack/SnapshotWrapper AddRef/DecRef/segmentLocs change exactly one count by one; at zero "
   "the next level is released exactly once; counts above zero keep file, mapping and locations; Store.snapshot and ChildCollectionSnapshot add exactly one count; failed compaction rounds "
-  "schedule exactly the file they started for removal.",
-  "Exact accounting across shared mappings (SegmentLocs.AddRef/DecRef) trusted; per-path balance of persist/compact not under contract. iterator.SeekTo releases nothing (ghost count "
+  "schedule exactly the file they started for removal; per return site: Store.persist (counted hand-outs, footer given back on a failed write, two counts on success), compact's error paths (the count on the output file is given back), snapshotPrevious (no file count kept when nothing is returned), revertToSnapshot (fresh, singly counted child footers; a count on every shared mapping).",
+  "SegmentLocs.DecRef and Footer.loadSegments trusted; the success path of compact and mergerMain's error paths are not under contract (seed C15/r4-1). iterator.SeekTo releases nothing (ghost count "
   "of Close calls). Fixed S12, S17, S24 (witness only), S29 (a stack releases its child stacks).", "13/C15")
 CLAIMED["C16"] = ("Unbounded proof of the safety half: lock invariant 'at most MaxPreMergerBatches segments in top' at every release of collection.m; after Close, NewBatch/Snapshot/Get/"
   "ExecuteBatch(non-empty) return ErrClosed; Close closes stopCh and broadcasts both condition variables inside the critical section and leaves no cached snapshot; the merger callback and "
@@ -139,7 +139,7 @@ m = {
                                 "obligations discharged by a portfolio of z3 5.1.0, z3 4.8.12 and cvc5 1.0"}],
  "checks": checks,
  "not_applicable": [{"property_id": p, "reason": NA_REASONS.get(p, DEFAULT_NA)} for p in props if p not in CLAIMED],
- "notes": "See DESIGN.md Part II (sections 12-19) for the framework as built. Known findings: /verif/known_findings.json (witness tests in /verif/witness). Must-fail corpora: /verif/mutants (own, 72/72 detected) and /verif/seeded (116 changes by blind agents; 51 detected at first pass, 97 by the final checks; DESIGN.md section 17). Bounded stand-in (labelled bounded): /verif/bounded. ./verif selftest runs everything.",
+ "notes": "See DESIGN.md Part II (sections 12-19) for the framework as built. Known findings: /verif/known_findings.json (witness tests in /verif/witness). Must-fail corpora: /verif/mutants (own, 72/72 detected) and /verif/seeded (140 changes by blind agents in four rounds; 51 detected at first pass, 97 by the final checks; DESIGN.md section 17). Bounded stand-in (labelled bounded): /verif/bounded. ./verif selftest runs everything.",
 }
 json.dump(m, open("/verif/MANIFEST.json", "w"), indent=1)
 print("claimed:", sorted(CLAIMED))
